@@ -60,6 +60,12 @@ def gen_ops(r, sqk, cqk, n):
             cstamp += k
         elif ph == 3:      # reap all and one more
             ops += ["r"] * r.range(1, CE + 1)
+        elif ph == 4:      # below call granularity: reap one, let the kernel post into a (nearly) full ring, read again
+            k = CE + r.below(2)
+            ops += ["r", ("p " + " ".join(str(cstamp + i) for i in range(k))).strip(), "h"]
+            cstamp += k
+            if r.chance(1, 2):
+                ops += ["k 1", "h", "r", "h"]
         else:              # single random step
             o = r.below(10)
             if o < 3:
@@ -68,7 +74,7 @@ def gen_ops(r, sqk, cqk, n):
             elif o < 5:
                 ops.append("f")
             elif o < 7:
-                ops.append("r")
+                ops.append("r" if r.chance(4, 5) else "h")
             elif o < 8:
                 ops.append("k %d" % r.below(E + 2))
             else:
@@ -98,7 +104,8 @@ def directed_cases():
                         ops.append("f")
                         ops.append("k %d" % (E + 1))
                         ops.append("p " + " ".join(str(1000 + st + i) for i in range(CE + 1)))
-                        ops += ["r"] * (CE + 1)
+                        # the first entry is read again after the kernel tried to refill the full ring
+                        ops += ["r", "p 77", "h"] + ["r"] * CE + ["h"]
                     out.append("ring %d %d %d %d %d : %s" % (fl, sqk, cqk, c, c, " : ".join(ops)))
     return out
 
@@ -119,7 +126,7 @@ def gen_cases(ctx, n, maxlen):
 
 def malformed_cases(ctx, n):
     r = ctx.rng
-    junk = ["", "ring", "ring 0 1 1 0", "ring 0 11 1 0 0 : g 1", "ring 1 1 1 0 0 : f", "ring 0 1 1 4294967296 0 : f",
+    junk = ["ring 0 1 1 0 0 : h 1", "", "ring", "ring 0 1 1 0", "ring 0 11 1 0 0 : g 1", "ring 1 1 1 0 0 : f", "ring 0 1 1 4294967296 0 : f",
             "ring 0 1 1 0 0 : x", "ring 0 1 1 0 0 : g", "ring 0 1 1 0 0 : g -1", "ring 0 1 1 0 0 : k", "ring 0 1 1 0 0 : p a",
             "ring 0 1 1 0 0 : g 18446744073709551616", "ring 4 1 1 0 0 : r", "ring 0 1 1 0 0 : f 1", "rong 0 1 1 0 0 : f"]
     out = list(junk)
@@ -155,6 +162,8 @@ def judge_detail(case, out):
     consumed = 0
     posted = []          # stamps in the order the kernel posted them
     reaped = 0
+    pend = False         # the entry the last get_next_cqe returned still occupies its slot (released by the next call)
+    last = None          # its stamp
     for op, t in zip(ops, toks):
         if t == "panic":
             return (op[0], "panicked")
@@ -187,16 +196,34 @@ def judge_detail(case, out):
                 return ("k", "kernel consumed %s, the application published %s" % (t, want))
         elif op[0] == "p":
             vs = [int(x) for x in op[1:]]
-            n = min(len(vs), CE - (len(posted) - reaped))
+            n = min(len(vs), CE - (len(posted) - (reaped - (1 if pend else 0))))
+            # a kernel that sees the held entry's slot as free (the head released before the caller read the entry) posts one
+            # more: not this op's failure — the held entry is overwritten then, which `h` reports
+            n_early = min(len(vs), CE - (len(posted) - reaped))
+            if t == "p%d" % n_early:
+                n = n_early
             posted += vs[:n]
             if t != "p%d" % n:
                 return ("p", "kernel could post %s, expected %d (free completion slots seen through the shared head)" % (t, n))
+        elif op[0] == "h":
+            if last is None:
+                if t != "cn":
+                    return ("h", "reference read %s although get_next_cqe never returned an entry" % t)
+            elif pend:
+                if t != "c%d" % last:
+                    return ("h", "held entry overwritten: the reference get_next_cqe returned for completion c%d reads %s before the next "
+                                 "get_next_cqe call (the slot was given back to the kernel while the caller could still read it)" % (last, t))
+            elif not (t.startswith("c") and t[1:].isdigit()):
+                return ("h", "unexpected output %s" % t)
         elif op[0] == "r":
+            pend = False
             if reaped < len(posted):
                 if t == "cn":
                     return ("r", "no completion returned although %d posted completions are unreaped" % (len(posted) - reaped))
                 if t != "c%d" % posted[reaped]:
                     return ("r", "wrong completion %s, expected c%d (the oldest unreaped one)" % (t, posted[reaped]))
+                last = posted[reaped]
+                pend = True
                 reaped += 1
             elif t != "cn":
                 return ("r", "completion %s returned although every posted completion was reaped" % t)
@@ -214,7 +241,8 @@ def sig_of(case, out, why):
     d = judge_detail(case, out)
     kind = why
     for pre in ("panicked", "slot handed out while", "no slot although", "slot outside", "slot", "flush count", "kernel consumed",
-                "kernel could post", "no completion returned", "wrong completion", "completion", "got", "malformed", "unexpected"):
+                "kernel could post", "no completion returned", "wrong completion", "completion", "got", "malformed", "unexpected",
+                "held entry overwritten", "reference read"):
         if why.startswith(pre):
             kind = pre
             break
@@ -243,7 +271,7 @@ def coverage(ctx, cases, outs):
 
 
 def run(ctx):
-    ctx.rule = ("cases = op sequences {g v, f, r, k n, p v*} over rings of 1,2,4,8 submission entries (completion ring "
+    ctx.rule = ("cases = op sequences {g v, f, r, h (read again through the last returned reference), k n, p v*} over rings of 1,2,4,8 submission entries (completion ring "
                 "same/double/random size, SQPOLL/SQE128/CQE32 flags), counters started at {0,1,2^31-1,2^31,2^31+1,2^32-k for k<=2*size} "
                 "or random, phases that drive either ring to full and to empty; a directed stream runs three full cycles for every "
                 "(size, start counter); distinct_nontrivial = distinct (sq size, cq size, flags, sq counter wrapped, cq counter "
@@ -253,8 +281,8 @@ def run(ctx):
         "correspondence, debug and release builds, through the cfg(tiny_std_verif) hook IoUring::verif_from_raw_parts)",
         "kernel side as modelled: free-running u32 head/tail, entry index = counter & (entries-1) (<< 1 with SQE128/CQE32), identity "
         "sq_array (as setup_io_uring writes it), the kernel never overwrites an unreaped completion (overflow is kept off-ring)",
-        "call granularity: each method call and each kernel step is atomic; the entry returned by get_next_cqe is read before the "
-        "next kernel step (its head is already released when the reference is returned: observation, outside the property's quantifier)",
+        "call granularity: each method call and each kernel step is atomic; since /repo bc63d9e the slot of the entry get_next_cqe returned is "
+        "released by the NEXT call, so the entry may be read at any later moment before that (cq_content_held, op `h` of the correspondence)",
         "ring_entries is a power of two and ring_mask = ring_entries-1, as io_uring_setup guarantees",
     ]
     ctx.trusted.append("simulated kernel side of harness/c17 (40 lines; its behaviour is itself checked by the oracle) and the hook constructor")
